@@ -164,6 +164,9 @@ func Generate(profile string, seed uint64, tier string) (*Scenario, error) {
 				sc.Ops = append(sc.Ops, Op{K: "restart"})
 			case x < 0.47:
 				sc.Ops = append(sc.Ops, Op{K: "foreignBackup", N: g.Intn(2)})
+			case x < 0.50 && backedUp:
+				// somebody's full sync is open on one of the datasets when the next runs are due
+				sc.Ops = append(sc.Ops, Op{K: "fullsyncStart", DS: g.Pick(c.Datasets)})
 			case x < 0.62:
 				// dataset management between backup runs: what a backup run sees first may be a dataset
 				// record, a deleted-datasets set or a namespace mapping, not an entity
